@@ -77,7 +77,7 @@ Proof.
   - destruct s as [|c s]; simpl in *; [lia|]. destruct (IH s) as (E & El); [lia|]. rewrite <- E, El. auto.
 Qed.
 
-Lemma str_eqb_prefix v s : str_eqb false v (substring 0 (String.length v) s) = sprefix v s.
+Lemma str_eqb_prefix v s : str_eqb lower false v (substring 0 (String.length v) s) = sprefix v s.
 Proof.
   revert s. induction v as [|a v IH]; intros s; simpl.
   - destruct s; reflexivity.
@@ -85,7 +85,7 @@ Proof.
 Qed.
 
 (* for a string terminal without flags the computed matcher is the prefix test of Lex/Lexer.v *)
-Lemma m_cp_str t text p : tre t = false -> tflags t = [] -> m_cp t text p = str_match_at t text p.
+Lemma m_cp_str t text p : tre t = false -> tflags t = [] -> m_cp t text p = str_match_at lower t text p.
 Proof.
   intros Hre Hfl. unfold m_cp, mm, str_match_at, ci_of. rewrite Hre, Hfl. simpl.
   rewrite substring_sdrop, str_eqb_prefix. reflexivity.
@@ -176,7 +176,7 @@ Section SafeProofs.
     x <> EmptyString /\ exists G, fs (append x G) = Some (t, String.length x) /\ ign_t t = false.
   (* ... and reported under the name n *)
   Definition lexable (tok : nat * string) : Prop :=
-    exists t, lexw t (snd tok) /\ name_index names (report m_cp (lx_terms L) t (snd tok)) = Some (fst tok).
+    exists t, lexw t (snd tok) /\ name_index names (report lower m_cp (lx_terms L) t (snd tok)) = Some (fst tok).
 
   Hypothesis Hok : forallb term_ok flat = true.
 
@@ -420,7 +420,7 @@ Section LexLexable.
   Qed.
 
   Lemma raw_lexable r n : raw_good r -> ignored (lx_ign L) r = false ->
-    name_index names (report m_cp (lx_terms L) (rterm r) (substring (rstart r) (rlen r) src)) = Some n ->
+    name_index names (report lower m_cp (lx_terms L) (rterm r) (substring (rstart r) (rlen r) src)) = Some n ->
     lexable names L (n, substring (rstart r) (rlen r) src).
   Proof.
     unfold raw_good. intros Hs Hi Hn. rewrite scan_fs in Hs. set (s := sdrop (rstart r) src) in *.
@@ -435,7 +435,7 @@ Section LexLexable.
   Qed.
 
   Lemma emit_lexable : forall rs toks, Forall raw_good rs ->
-    conv_toks names src (emit m_cp src (lx_terms L) (lx_ign L) rs) = Some toks -> Forall (lexable names L) toks.
+    conv_toks names src (emit lower m_cp src (lx_terms L) (lx_ign L) rs) = Some toks -> Forall (lexable names L) toks.
   Proof.
     induction rs as [|r rs IH]; intros toks Hg H; unfold emit in *; simpl in H.
     - inversion H. constructor.
